@@ -234,6 +234,14 @@ func (chain *BlockChain) connectBestChain(node *blockNode, block *types.BlockDet
 		iSideChain = false
 	}
 	fork := chain.bestChain.FindFork(node)
+	if fork == nil {
+		// The parent links of this block no longer lead to the best chain (one of its
+		// ancestors was removed from the index after it failed to execute): there is no
+		// fork point to report for a side chain and none to reorganize from.
+		chainlog.Error("connectBestChain fork point not found", "nodeHeight", node.height, "nodeHash", common.ToHex(node.hash),
+			"parentHash", common.ToHex(parentHash))
+		return nil, false, types.ErrParentBlockNoExist
+	}
 	finalized, hash := chain.finalizer.getLastFinalized()
 	if iSideChain || node.height < finalized+12 {
 
